@@ -16,6 +16,11 @@ session 4: constructor options of every serializer (sers.vary, one-shot domain: 
           EMPTY (an empty datagram is a datagram), sent through the blocking socket transport and UDPNetworkClient and COUNTED on
           the wire (`_wire_line`), received through every API; named-tuple struct packets with NUL bytes inside `Ns` fields;
           well-formed pickles whose loading raises (one per exception class) between valid datagrams, bare and inside wrappers.
+round 5  : api "udp-iter" / "audp-iter": ONE `iter_received_packets(timeout=…)` iterator object of the blocking / asyncio UDP client
+          advanced across the whole sequence (parse errors caught, the object kept; budgets 0 / 30 / None; all datagrams first or one by
+          one; direct recv_packet() calls in between): k datagrams = exactly k observations in order, then the end, nothing left
+          (vlib/c05_iter.py, docs/C05.md); api "sync-rx" / "async-rx": the one-directional endpoint classes; a legal packet the
+          one-shot serialize() refuses is a failing input (kind "unserializable"), not a generator crash.
 """
 from __future__ import annotations
 
@@ -25,7 +30,7 @@ import socket
 from collections.abc import Generator
 from typing import Any
 
-from vlib import core, sers, streamdrive as sd
+from vlib import c05_iter, core, sers, streamdrive as sd
 
 from easynetwork.exceptions import DatagramProtocolParseError
 from easynetwork.lowlevel.api_async.backend._asyncio.backend import AsyncIOBackend
@@ -245,6 +250,11 @@ def _run_seq(case: dict) -> list[str]:
         finally:
             ep.close()
             peer.close()
+    elif api in c05_iter.ITER_APIS:
+        lines.extend(c05_iter.run_iter(case, proto, datagrams))
+    elif api in c05_iter.RX_APIS:
+        lines.extend(c05_iter.run_rx(case, proto, datagrams, to_send, conv, ScriptedDgram, AsyncScriptedDgram, _res_line, _Exhausted,
+                                     _get_loop()))
     else:
         lines.extend(_run_udp(case, proto, datagrams, to_send, conv))
     return lines
@@ -399,11 +409,14 @@ def model_input(case: dict, real: list[str]):
                 ops.append(" ".join(str(x) for x in ev))
         return "dgq", ops
     spec = case["spec"]
-    if spec["k"] == "sepinc" and not case.get("conv") and case["api"] in ("sync", "async"):
+    if spec["k"] == "sepinc" and not case.get("conv") and case["api"] in _SCRIPTED:
         return f"dg1 ru {spec['sep']} {spec['limit']} {1 if spec.get('keep_end') else 0}", [f"dgram {d or '-'}" for d in case["datagrams"]]
-    if spec["k"] == "fixinc" and not case.get("conv") and case["api"] in ("sync", "async"):
+    if spec["k"] == "fixinc" and not case.get("conv") and case["api"] in _SCRIPTED:
         return f"dg1 re {spec['size']}", [f"dgram {d or '-'}" for d in case["datagrams"]]
     return None
+
+
+_SCRIPTED = ("sync", "async") + c05_iter.RX_APIS
 
 
 def model_post(case: dict, lines: list[str]) -> list[str]:
@@ -422,7 +435,7 @@ def model_post(case: dict, lines: list[str]) -> list[str]:
 
 
 def real_for_diff(case: dict, real: list[str]) -> list[str]:
-    return [ln for ln in real if not ln.startswith("sent ")]
+    return [ln for ln in real if not ln.startswith(c05_iter.META)]
 
 
 def _standalone(case: dict, d: bytes) -> str:
@@ -455,7 +468,11 @@ def oracle(case: dict, real: list[str]) -> str | None:
             return f"recvfrom returned {got[:6]}, accepted datagrams were {accepted[:6]}"
         return None
     datagrams = [bytes.fromhex(d) for d in case["datagrams"]]
-    results = [ln for ln in real if not ln.startswith("sent ")]
+    results = [ln for ln in real if not ln.startswith(c05_iter.META)]
+    if case["api"] in c05_iter.ITER_APIS:
+        why = c05_iter.oracle_meta(case, real)
+        if why:
+            return why
     if len(results) != len(datagrams):
         return f"{len(datagrams)} datagrams gave {len(results)} results"
     spec = case["spec"]
@@ -606,9 +623,35 @@ def _gen_packet(rng, spec: dict) -> Any:
     return sers.gen_packet(rng, spec, 8)
 
 
+class _SerializeFailed(Exception):
+    pass
+
+
+class _Checked:
+    """the generator builds its datagrams with the real one-shot serialize(): a legal packet that it refuses must end as a failing
+    INPUT (the packet goes to send_packet() of the case's API), not as a crash of the generator"""
+
+    def __init__(self, ser) -> None:
+        self.ser = ser
+
+    def serialize(self, p) -> bytes:
+        try:
+            return self.ser.serialize(p)
+        except Exception as e:  # noqa: BLE001
+            raise _SerializeFailed(sers.enc_val(p)) from e
+
+
 def _gen_seq(rng, api: str) -> dict:
     spec = _gen_spec(rng)
-    ser = _build(spec)
+    try:
+        return _gen_seq1(rng, api, spec)
+    except _SerializeFailed as e:
+        return {"kind": "seq", "spec": spec, "api": api if api not in c05_iter.ITER_APIS else "udp", "datagrams": [], "valid": [],
+                "kinds": ["unserializable"], "send": [e.args[0]], "conv": False}
+
+
+def _gen_seq1(rng, api: str, spec: dict) -> dict:
+    ser = _Checked(_build(spec))
     datagrams, valid, kinds = [], [], []
     for _ in range(rng.randint(1, 7)):
         p = _gen_packet(rng, spec)
@@ -638,12 +681,27 @@ def _gen_seq(rng, api: str) -> dict:
     # (an empty UDP datagram is legal and delivered on loopback — verified with plain sockets and with both clients — so empty
     #  datagrams stay in the sequence for the socket APIs too, in both directions.  One exception, reported in the notes: the
     #  asyncio transport of CPython 3.12 drops an empty sendto(), so AsyncUDPNetworkClient.send_packet("") sends nothing.)
-    send = [sers.enc_val(_gen_packet(rng, spec)) for _ in range(rng.randint(0, 2 if api in ("sync", "async") else 4))]
+    send = [sers.enc_val(_gen_packet(rng, spec)) for _ in range(rng.randint(0, 2 if api in _SCRIPTED else 4))]
+    if api in c05_iter.ITER_APIS:
+        send = []
     if api == "audp" and not sers.REPORTED:
         send = [v for v in send if ser.serialize(sers.dec_val(v))]
     conv = rng.random() < 0.2
-    return {"kind": "seq", "spec": spec, "api": api, "datagrams": [d.hex() for d in datagrams], "valid": valid, "kinds": kinds,
+    case = {"kind": "seq", "spec": spec, "api": api, "datagrams": [d.hex() for d in datagrams], "valid": valid, "kinds": kinds,
             "send": send, "conv": conv}
+    if api in c05_iter.ITER_APIS:
+        case.update(_gen_iter_schedule(rng, api, len(datagrams)))
+    return case
+
+
+def _gen_iter_schedule(rng, api: str, k: int) -> dict:
+    """round 5: how the iterator object is used (see vlib/c05_iter.py)"""
+    r = rng.random()
+    plan = ["n"] * k if r < 0.6 else [rng.choice("nnr") for _ in range(k)]
+    if "n" not in plan:
+        plan[rng.randrange(k)] = "n"
+    return {"timeout": rng.choice([0, 0, 30.0, None] if api == "udp-iter" else [30.0, 30.0, None]), "plan": plan,
+            "batch": rng.choice(["all", "all", "each"]), "reiter": rng.random() < 0.25}
 
 
 def _gen_queue(rng) -> dict:
@@ -685,6 +743,48 @@ def corpus() -> list[dict]:
                             "valid": [sers.enc_val(t) for t in texts], "kinds": ["valid"] * len(texts),
                             "send": [sers.enc_val(t) for t in texts], "conv": api == "async"})
     out += _session4_corpus()
+    out += _round5_corpus()
+    return out
+
+
+def _round5_corpus() -> list[dict]:
+    """one iterator object of each UDP client across `good BAD good good BAD BAD good good` (and a malformed first / last datagram),
+    every budget, with and without direct recv_packet() calls in between; the same histories through the one-directional endpoints"""
+    ev = sers.enc_val
+    out = []
+    line = {"k": "line", "newline": "LF", "keep_end": False, "encoding": "ascii", "limit": 64}
+    js = {"k": "json", "use_lines": False, "limit": 1024}
+    for spec, good, bad in ((line, ["a", "bc", "", "d", "last"], [b"\xff\xfe", b"x" * 80, b"\x80"]),
+                            (js, [{"n": 1}, [1, 2, 3], "three", None, 5], [b"{", b"\xff", b"[1,"]),
+                            ({"k": "struct", "format": "!HB"}, [(1, 2), (3, 4), (65535, 255), (0, 0), (7, 7)], [b"", b"\x00", b"\x00" * 4]),
+                            ({"k": "b64", "inner": js, "alphabet": "standard", "checksum": True, "separator": "0d0a", "limit": 65536},
+                             [{"n": 1}, [1], "x", 2, 3], [b"!!!!", b"AAAA", b"e30="]),
+                            ({"k": "zlib", "inner": line}, ["a", "b", "c", "d", "e"], [b"x", b"\x78\x9c", b""]),
+                            ({"k": "sepinc", "sep": "0d0a", "limit": 16, "keep_end": False}, [b"ab", b"", b"c", b"d", b"e"],
+                             [b"ab", b"ab\r\ncd\r\n", b"\r\n\r\n"])):
+        ser = _build(spec)
+        g = [ser.serialize(p) for p in good]
+        for shape in ("gBggBBgg", "Bgg", "ggB", "BBBg", "gB"):
+            ds, valid, kinds, gi, bi = [], [], [], 0, 0
+            for ch in shape:
+                if ch == "g":
+                    ds.append(g[gi % len(g)]); valid.append(ev(good[gi % len(g)])); kinds.append("valid"); gi += 1
+                else:
+                    ds.append(bad[bi % len(bad)]); valid.append(None); kinds.append("random"); bi += 1
+            base = {"kind": "seq", "spec": spec, "datagrams": [d.hex() for d in ds], "valid": valid, "kinds": kinds, "send": [],
+                    "conv": False}
+            if shape == "gBggBBgg":
+                for api in c05_iter.RX_APIS:
+                    out.append({**base, "api": api, "send": [ev(p) for p in good[:2]]})
+            for api in c05_iter.ITER_APIS:
+                for timeout in ((0, 30.0, None) if api == "udp-iter" else (30.0, None)):
+                    if shape != "gBggBBgg" and timeout is None:
+                        continue
+                    for batch in ("all", "each"):
+                        out.append({**base, "api": api, "timeout": timeout, "plan": ["n"], "batch": batch, "reiter": batch == "each",
+                                    "conv": timeout == 30.0 and batch == "all"})
+                out.append({**base, "api": api, "timeout": 30.0, "plan": ["n", "r", "n", "n", "r", "n", "r", "n"], "batch": "all",
+                            "reiter": False})
     return out
 
 
@@ -744,11 +844,14 @@ def _session4_corpus() -> list[dict]:
 def generate(rng, tier: str, boost: int):
     n = (2500 if tier == "quick" else 60000) * boost
     for _ in range(n):
-        yield _gen_seq(rng, rng.choice(["sync", "async"]))
+        yield _gen_seq(rng, rng.choice(["sync", "async", "sync", "async", "sync-rx", "async-rx"]))
     for _ in range((1500 if tier == "quick" else 40000) * boost):
         yield _gen_queue(rng)
     for _ in range((160 if tier == "quick" else 1200) * boost):
         yield _gen_seq(rng, rng.choice(["udp", "udp", "sync-socket", "sync-socket", "audp"]))
+    # round 5: the iterator entry points of both UDP clients (one iterator object across the whole sequence)
+    for _ in range((220 if tier == "quick" else 2400) * boost):
+        yield _gen_seq(rng, rng.choice(c05_iter.ITER_APIS))
     # datagrams near the maximum UDP payload must not be truncated by the receive buffer size
     for size in ([1000, 16384, 16385, 40000, 65000] if tier == "quick" else [1000, 8192, 16384, 16385, 20000, 32768, 40000, 65000, 65507]):
         for api in ("udp", "audp", "sync-socket"):
